@@ -191,6 +191,11 @@ def run_model_layer(n, vec, chunk, pool_n, unit, which, par_prior=True):
         initialise_pool_variables(m)
     arr = np.stack([np.arange(n, dtype=float), np.linspace(-1, 1, n) if n else np.zeros(0)], axis=1)
     x = numpy_array_to_live_points(arr, m.names)
+    # the non-sampling fields the points happen to carry must not matter ("for ANY batch of points"): stored log-priors of
+    # -inf / NaN / finite values and stale log-likelihoods (seeded change C10-e: points with logP == -inf were skipped)
+    if n:
+        x["logP"] = np.array([[-np.inf, 0.0, np.nan, -1.5][(i + n) % 4] for i in range(n)])
+        x["logL"] = np.array([[np.nan, 3.25, -np.inf][(i + 2 * n) % 3] for i in range(n)])
     xin = m.to_unit_hypercube(x) if unit else x
     before = m.likelihood_evaluations
     try:
